@@ -2,6 +2,7 @@ package main
 
 import (
 	"fmt"
+	"go.pennock.tech/tabular"
 	"html"
 	"regexp"
 	"strings"
@@ -20,7 +21,7 @@ func init() {
 		ID:        "C08",
 		Level:     "exploration",
 		Technique: "bounded exhaustive input enumeration (hostile atoms and all ordered pairs in every cell position; all small shapes; all alignment assignments) rendered by the real code and re-read by an independent GFM row splitter",
-		Rule: "family hostile-text: each of 18 atoms and every ordered pair, in 6 positions (header/body x first/middle/last of 3 columns); family shapes: header 0..3 cells (first/last) or none, <=2 rows (thorough <=3) of sep|0..3 cells, texts from {serial, empty, pipe+newline}; " +
+		Rule: "family lifecycle: one table and one long-lived wrapper, every sequence of <=4 (thorough 5) in-place modifications (items mutated + Update, headers replaced, rows grown, alignment of column 0/1/2 changed), Render and failed RenderTo, each Render judged against the current content; family hostile-text: each of 18 atoms and every ordered pair, in 6 positions (header/body x first/middle/last of 3 columns); family shapes: header 0..3 cells (first/last) or none, <=2 rows (thorough <=3) of sep|0..3 cells, texts from {serial, empty, pipe+newline}; " +
 			"family alignment: every assignment of {unset,left,right,centre} to column 0 and each of <=3 columns (4^4) x 3 shapes; non-trivial = text needing escape, anomalous shape, or a non-default alignment; distinct by input",
 		Assumptions: []string{"texts are free of carriage returns (documented non-goal)", "a pipe is 'unescaped' unless directly preceded by a backslash", "padding inside cells is not asserted"},
 		QuickBudget: 90 * time.Second, ThoroughBudget: 15 * time.Minute,
@@ -86,6 +87,12 @@ func c08Check(x *X, c *Chooser, in *c08Input, extraTags []string) {
 		x.FailSite("C08.no_panic", append(tags, "panic"), site, "markdown Render panicked: %v on %s", val, g)
 		return
 	}
+	c08Judge(x, in, tags, out, err)
+}
+
+// c08Judge applies the oracle to an output obtained for the table described by in.
+func c08Judge(x *X, in *c08Input, tags []string, out string, err error) {
+	g := in.g
 	ncols := g.NCols()
 	if !g.HasHeader || ncols == 0 {
 		x.Clause("C08.refused")
@@ -238,6 +245,14 @@ func runC08(x *X) {
 		}
 		x.State(g.ShapeKey())
 		c08Check(x, c, &c08Input{g: g}, nil)
+	})
+	ldepth := x.Pick(4, 5)
+	lops := lifeOps(true, false)
+	x.Explore("lifecycle", ExploreOpts{ShardDepth: 2, Bound: fmt.Sprintf("one table + one long-lived markdown wrapper: all sequences of <=%d operations over %d in-place modifications/alignment changes, Render, failed RenderTo", ldepth, len(lops))}, func(c *Chooser) {
+		lifecycle(x, c, "C08", ldepth, lops, false, func(t tabular.Table) lifeRenderer { return markdown.Wrap(t) },
+			func(m *lifeModel, tags []string, out string, err error) {
+				c08Judge(x, &c08Input{g: m.grid(), aligns: m.aligns}, tags, out, err)
+			})
 	})
 	wide := WideGrids()
 	x.Explore("wide", ExploreOpts{Bound: "4 tables of 10-13 columns x one hostile text / one alignment in each column position in turn"}, func(c *Chooser) {
